@@ -7,144 +7,9 @@ use serde_json::json;
 use std::sync::Mutex;
 use vmodel::ast::*;
 use vmodel::enumerate::*;
+pub use vmodel::gen::{build_project, group_states, inherits_maps, GroupState, Presence, KINDS as C03_KINDS, PRES};
 use vmodel::par::par_for;
 use vmodel::{Reporter, Tier};
-
-#[derive(Clone, Copy, PartialEq, Eq, Debug)]
-pub enum Presence {
-    Defined,
-    Null,
-    Absent,
-}
-pub const PRES: [Presence; 3] = [Presence::Defined, Presence::Null, Presence::Absent];
-
-/// group state in a non-default locale
-#[derive(Clone, Copy, PartialEq, Eq, Debug)]
-pub enum GroupState {
-    Absent,
-    Null,
-    Sub(Presence, Presence),
-}
-
-pub fn group_states() -> Vec<GroupState> {
-    let mut v = vec![GroupState::Absent, GroupState::Null];
-    for a in PRES {
-        for b in PRES {
-            v.push(GroupState::Sub(a, b));
-        }
-    }
-    v
-}
-
-pub const KINDS: [&str; 4] = ["str", "interp", "range", "plural"];
-
-fn value_of_kind(kind: &str, tag: &str) -> Vec<(String, Val)> {
-    // returns the entries to add for key base name "K" (plural adds two)
-    match kind {
-        "str" => vec![("K".into(), st(&format!("[{tag}]")))],
-        "interp" => vec![("K".into(), s(vec![text(&format!("[{tag}]")), var("x"), comp("b", vec![var("y")])]))],
-        "range" => vec![(
-            "K".into(),
-            Val::Range(RangeDecl {
-                ty: None,
-                branches: vec![
-                    Branch { value: Box::new(st(&format!("[{tag}.zero]"))), counts: vec![CountSpec::Int(0)], map_form: false, value_first: false },
-                    Branch { value: Box::new(s(vec![text(&format!("[{tag}.many]")), var("count")])), counts: vec![], map_form: false, value_first: false },
-                ],
-            }),
-        )],
-        "plural" => vec![
-            ("K_one".into(), st(&format!("[{tag}.one]"))),
-            ("K_other".into(), s(vec![text(&format!("[{tag}.other]")), var("count")])),
-        ],
-        _ => unreachable!(),
-    }
-}
-
-pub fn build_project(locales: &[&str], inherits: &[(String, String)]) -> (Project, u64) {
-    let default = locales[0];
-    let others = &locales[1..];
-    let mut cfg = Config::simple(default, locales);
-    cfg.inherits = inherits.to_vec();
-    let mut files: Vec<Vec<(String, Val)>> = vec![vec![]; locales.len()];
-    let mut n_keys = 0u64;
-    // value kinds x presence patterns
-    for kind in KINDS {
-        for (pi, pat) in tuples(3, others.len()).iter().enumerate() {
-            let name = format!("{kind}{pi}");
-            n_keys += 1;
-            for (li, loc) in locales.iter().enumerate() {
-                let pres = if li == 0 { Presence::Defined } else { PRES[pat[li - 1]] };
-                match pres {
-                    Presence::Defined => {
-                        for (k, v) in value_of_kind(kind, &format!("{loc}.{name}")) {
-                            files[li].push((k.replace('K', &name), v));
-                        }
-                    }
-                    Presence::Null => files[li].push((name.clone(), Val::Null)),
-                    Presence::Absent => {}
-                }
-            }
-        }
-    }
-    // groups
-    let gs = group_states();
-    for (gi, pat) in tuples(gs.len(), others.len()).iter().enumerate() {
-        let name = format!("g{gi}");
-        n_keys += 2;
-        for (li, loc) in locales.iter().enumerate() {
-            let st_ = if li == 0 { GroupState::Sub(Presence::Defined, Presence::Defined) } else { gs[pat[li - 1]] };
-            match st_ {
-                GroupState::Absent => {}
-                GroupState::Null => files[li].push((name.clone(), Val::Null)),
-                GroupState::Sub(a, b) => {
-                    let mut sub = vec![];
-                    for (sk, p) in [("x", a), ("y", b)] {
-                        match p {
-                            Presence::Defined => sub.push((sk.to_string(), st(&format!("[{loc}.{name}.{sk}]")))),
-                            Presence::Null => sub.push((sk.to_string(), Val::Null)),
-                            Presence::Absent => {}
-                        }
-                    }
-                    files[li].push((name.clone(), Val::Sub(sub)));
-                }
-            }
-        }
-    }
-    // one nested group (depth 3) whose middle level is null / absent / partial per locale (rotating)
-    for (li, loc) in locales.iter().enumerate() {
-        let leaf = |k: &str| (k.to_string(), st(&format!("[{loc}.deep.{k}]")));
-        let v = match li % 4 {
-            0 => Val::Sub(vec![("m".into(), Val::Sub(vec![leaf("p"), leaf("q")])), leaf("r")]),
-            1 => Val::Sub(vec![("m".into(), Val::Null), leaf("r")]),
-            2 => Val::Sub(vec![("m".into(), Val::Sub(vec![leaf("q")]))]),
-            _ => Val::Sub(vec![leaf("r")]),
-        };
-        files[li].push(("deep".into(), v));
-    }
-    n_keys += 3;
-    let mut p = Project::new(cfg);
-    for (li, loc) in locales.iter().enumerate() {
-        p.set_file(None, loc, std::mem::take(&mut files[li]));
-    }
-    (p, n_keys)
-}
-
-pub fn inherits_maps(locales: &[&str]) -> Vec<Vec<(String, String)>> {
-    let others = &locales[1..];
-    let mut out = vec![];
-    // each non-default locale -> none or any locale (incl. itself and the default)
-    for t in tuples(locales.len() + 1, others.len()) {
-        let mut m = vec![];
-        for (i, o) in others.iter().enumerate() {
-            if t[i] > 0 {
-                m.push((o.to_string(), locales[t[i] - 1].to_string()));
-            }
-        }
-        out.push(m);
-    }
-    out
-}
 
 pub fn run(tier: Tier) -> i32 {
     let rep = Reporter::new("C03", &engine_name("L1"), tier);
